@@ -37,10 +37,11 @@ FINISH = dict(level="model_checking",
 
 LEV = ["a", "b", "c"]          # Lev of the spec
 CLEV = ["u", "v"]              # levels of the categorical that sits in the context
-PLAIN = dict(dense="tuple", sparse="dict", ident="same", form="lists", cls="dict", ctx="dense", noise=1)
+PLAIN = dict(dense="tuple", sparse="dict", ident="same", form="lists", cls="dict", ctx="dense", noise=1, nest="tuple")
 FEATURES = dict(dense=("tuple", "list", "lazy"), sparse=("dict", "lazy"),
                 ident=("same", "copy", "alias", "alias2"), form=("lists", "mapping"), cls=("dict", "coba"),
-                ctx=("dense", "none", "scalar", "sparse"), noise=(1, 7))
+                ctx=("dense", "none", "scalar", "sparse"), noise=(1, 7),
+                nest=("tuple", "list"))        # the container of a NESTED part of an action (a mutable one can be shared between input and output)
 
 
 def rendering(k):
@@ -60,7 +61,7 @@ def mk_val(c, rd, top=True):
     if tag == "c": return Categorical(LEV[c[1] - 1], LEV)
     if tag == "s":
         items = [mk_val(x, rd, False) for x in c[1]]
-        if not top: return tuple(items)
+        if not top: return tuple(items) if rd.get("nest", "tuple") == "tuple" else items
         k = rd["dense"]
         return tuple(items) if k == "tuple" else items if k == "list" else LazyDense(items)
     if tag == "map":
@@ -91,6 +92,7 @@ def pick(obj, c, rd, member=False):
     always an object of the action set's own type"""
     if rd["ident"] == "same": return obj
     if rd["ident"] == "copy" or member: return mk_val(c, rd)
+    if rd.get("nest") == "list" and not isinstance(c, (int, str)) and c[0] == "map": return mk_val(c, rd)   # HashableSparse with a list inside equals no mapping: no alias exists
     return mk_alias(c, rd)
 
 
@@ -460,14 +462,14 @@ def replay(case, rd, others=()):
 
 
 # ---- TLC chunks ------------------------------------------------------------------------------------------------
-ALL_SHAPES = ("scalar", "string", "cat", "dense", "densecat", "nested", "sparse", "sparsecat", "sparsecatk", "sparsenest", "sparsepart", "sparsezero")
+ALL_SHAPES = ("scalar", "string", "cat", "dense", "densecat", "nested", "sparse", "sparsecat", "sparsecatk", "sparsenest", "sparsepart", "sparsezero", "nestedcat", "nestedmix", "sparsenestcat")
 
 
 def chunks(ctx):
     """(name, MaxLen, levels, shapes, flavours, envs, check Idempotent, Mixes)"""
     if ctx.quick:
         return [("len1", 1, ("full", "off", "off"), ALL_SHAPES, ("igl", "logged"), ("diff", "rev"), True, "none"),
-                ("len2", 2, ("tiny", "tiny", "off"), ("scalar", "cat", "densecat", "nested", "sparsecat", "sparsepart", "sparsezero"), ("iglmix", "logged"), ("same", "rev"), False, "none"),
+                ("len2", 2, ("tiny", "tiny", "off"), ("scalar", "cat", "densecat", "nested", "sparsecat", "sparsepart", "sparsezero", "nestedcat", "sparsenestcat"), ("iglmix", "logged"), ("same", "rev"), False, "none"),
                 ("mix1", 1, ("tiny", "off", "off"), ALL_SHAPES, ("igl",), ("same",), False, "only")]
     return [("len1", 1, ("full", "off", "off"), ALL_SHAPES, ("sim", "igl", "iglmix", "logged"), ("one", "same", "diff", "samediff", "rev"), True, "none"),
             ("len2", 2, ("lite", "lite", "off"), ALL_SHAPES, ("igl", "iglmix", "logged"), ("same", "diff", "rev"), False, "none"),
@@ -483,7 +485,7 @@ def tlc_chunk(ctx, name, maxlen, levels, shapes, flavours, envs, idem, mixes):
     """the TLC run of one chunk (runs in a thread: the chunks' model checking overlaps with each other and with the replay)"""
     sub = {"MaxLen = 1": "MaxLen = %d" % maxlen, 'Level1 = "full"': 'Level1 = "%s"' % levels[0], 'Level2 = "off"': 'Level2 = "%s"' % levels[1],
            'Level3 = "off"': 'Level3 = "%s"' % levels[2],
-           'Shapes = {"scalar", "string", "cat", "dense", "densecat", "nested", "sparse", "sparsecat", "sparsecatk", "sparsenest", "sparsepart", "sparsezero"}': "Shapes = " + tla_set(shapes),
+           'Shapes = {"scalar", "string", "cat", "dense", "densecat", "nested", "sparse", "sparsecat", "sparsecatk", "sparsenest", "sparsepart", "sparsezero", "nestedcat", "nestedmix", "sparsenestcat"}': "Shapes = " + tla_set(shapes),
            'Flavours = {"sim", "igl", "iglmix", "logged"}': "Flavours = " + tla_set(flavours),
            'Envs = {"one", "same", "diff"}': "Envs = " + tla_set(envs), 'Mixes = "none"': 'Mixes = "%s"' % mixes}
     if not idem: sub["INVARIANT Idempotent"] = ""
